@@ -29,7 +29,12 @@ class StubTransport:
         self.close_calls = 0
         self.write_types: list[type] = []
 
+    fail_next = None  # an exception the next write() raises (closed handle: RuntimeError on uvloop, OSError elsewhere)
+
     def write(self, data) -> None:
+        if self.fail_next is not None:
+            exc, self.fail_next = self.fail_next, None
+            raise exc
         self.write_types.append(type(data))
         self.writes.append(bytes(data))
 
